@@ -1,8 +1,9 @@
 SPECIFICATION MCSpec
 CONSTANTS Design = "repaired"
-          MaxLogs = 3
+          MaxLogs = 2
           MaxCycles = 1
           MaxAdv = 2
           MaxReads = 1
+          MaxExt = 1
 INVARIANTS LinesWholeInOrder FileNameRight RotatesAfterCycle SuppressedOnlyWithin RetentionExact ReadHonest SurvivorsSurvive OldRemoved
 CHECK_DEADLOCK FALSE
